@@ -12,3 +12,9 @@ claim("C02", "other",
       "Decides necessary structural conditions for every CFG path and every request type makePacket can build: exhaustive dispatch, exactly one readyPacket per dispatched request, no received request skipped, response id and order id are the request's own, order counter/sort/head-match/single-sender discipline, reply types legal per request type, no response abandoned at shutdown (two known findings). It decides the mechanism's shape; it does not execute interleavings.",
       "Assumes handlers return and the transport preserves byte order; call resolution by static callees and VTA; oracle table of legal reply types from draft-ietf-secsh-filexfer-02 and OpenSSH PROTOCOL.",
       "DESIGN.md section 4, C02")
+
+claim("C09", "proof",
+      "effect analysis over VTA call-graph cones + dispatch simulation of the gate's type switch + exhaustive evaluation of the open-flag tables extracted from syntax",
+      "For every request type that can be constructed and all 64 open-flag sets: mutating sink reachable in the handling cone => the gate classifies the request not-read-only; the gate dominates handlePacket, answers EPERM (mapped to PERMISSION_DENIED) and does not refuse reading requests. Finite and exhaustive over the extracted tables; together sufficient for the property modulo the trusted base.",
+      "Trusted: sink classification (anything in os/syscall/ioutil/x-sys not on the reading allowlist is mutating), VTA call graph, OS semantics of a plain O_RDONLY open, option fixed at construction.",
+      "DESIGN.md section 4, C09")
